@@ -155,8 +155,14 @@ class SimpleOperationExecutor:
         # IsADirectoryError
         if (created_files is None or
                 not created_files.has_norm_cased_file(norm_cased_filename)):
-            self._build_dirs.handle_norm_cased_dir_exists(
-                os.path.dirname(norm_cased_filename))
+            # As in is_file, check the virtual state again
+            if (self._is_file_no_read(
+                    norm_cased_filename, created_files) is False or
+                    not self._build_dirs.
+                    handle_norm_cased_dir_exists_unless_removed(
+                        os.path.dirname(norm_cased_filename))):
+                raise FileNotFoundError(
+                    'The requested file does not exist: {:s}'.format(filename))
 
         return result
 
@@ -211,9 +217,16 @@ class SimpleOperationExecutor:
         if is_file_no_read is not None:
             return is_file_no_read
         elif os.path.isfile(norm_cased_filename):
-            self._build_dirs.handle_norm_cased_dir_exists(
-                os.path.dirname(norm_cased_filename))
-            return True
+            # Check the virtual state again, in case another thread started
+            # building the file (or virtually removed its directory, after an
+            # exception building the file) in the meantime
+            is_file_no_read = self._is_file_no_read(
+                norm_cased_filename, created_files)
+            if is_file_no_read is not None:
+                return is_file_no_read
+            return (
+                self._build_dirs.handle_norm_cased_dir_exists_unless_removed(
+                    os.path.dirname(norm_cased_filename)))
         else:
             return False
 
@@ -358,9 +371,12 @@ class SimpleOperationExecutor:
         if norm_cased_filename == self._norm_cased_cache_filename:
             return False
         elif self._new_cache.has_norm_cased_file(norm_cased_filename):
-            if (self._new_cache.get_norm_cased_file(norm_cased_filename) is
-                    None):
-                # We are currently building the file
+            operation = self._new_cache.get_norm_cased_file(
+                norm_cased_filename)
+            if operation is None or operation.raised:
+                # We are currently building the file, or there was an exception
+                # building it. (In the latter case, the file might not be
+                # removed yet.)
                 return False
         elif self._old_cache.created_norm_cased_file(norm_cased_filename):
             return False
